@@ -182,12 +182,50 @@ func VerifC02Security() {
 	rw := vNewWriter()
 	su.handler.ServeHTTP(rw, r)
 
+	admitted, anonymous, anyReject, princ, admitScopes := c02Oracle(si)
+	authzDenied := admitted && withAuthz && c02S.authz != 0
+
+	if admitted && !authzDenied {
+		zv.Reach("admitted")
+		zv.Assert("handler-runs-when-an-alternative-is-satisfied", c02S.handlerRan == 1)
+		zv.Assert("no-error-response-when-admitted", vRec.errCount == 0)
+		if withAuthz {
+			zv.Assert("authorizer-consulted-once", c02S.authzCalls == 1)
+			if !anonymous {
+				zv.Assert("authorizer-sees-the-alternatives-principal", c02S.authzPrinc == princ)
+			}
+		}
+	} else {
+		zv.Reach("refused")
+		zv.Assert("handler-does-not-run-when-refused", c02S.handlerRan == 0)
+		zv.Assert("error-responder-called-once", vRec.errCount == 1)
+		e, isAPIErr := vRec.servedErr.(errors.Error)
+		zv.Assert("error-has-a-status", isAPIErr)
+		if isAPIErr {
+			switch {
+			case authzDenied && c02S.authz == 1:
+				zv.Reach("authz-own-status")
+				zv.Assert("authorizer-error-kept", e.Code() == 418)
+			case authzDenied:
+				zv.Reach("authz-403")
+				zv.Assert("authorizer-plain-error-is-403", e.Code() == http.StatusForbidden)
+			case anyReject:
+				zv.Reach("rejected")
+				zv.Assert("rejecting-scheme-error", e == errC02["a"] || e == errC02["b"] || e == errC02["c"])
+			default:
+				zv.Reach("401")
+				zv.Assert("401-when-no-alternative-applied", e.Code() == http.StatusUnauthorized)
+			}
+		}
+	}
+	_ = admitScopes
+}
+
+
+// c02Oracle evaluates the requirement structure declaratively.
+func c02Oracle(si int) (admitted, anonymous, anyReject bool, princ interface{}, admitScopes []string) {
 	// ---- oracle: OR of ANDs ----
 	st := c02Structs[si]
-	admitted := false
-	var princ interface{}
-	var admitScopes []string
-	anyReject := false
 	hasAnon := false
 	for _, alt := range st {
 		if len(alt) == 0 {
@@ -233,44 +271,60 @@ func VerifC02Security() {
 			}
 		}
 	}
-	anonymous := false
 	if !admitted && hasAnon && !anyReject {
 		admitted, anonymous = true, true
 	}
-	authzDenied := admitted && withAuthz && c02S.authz != 0
+	return
+}
 
-	if admitted && !authzDenied {
+// VerifC02Authorize: what a handler can read (principal, scopes) comes from the
+// satisfied alternative.
+func VerifC02Authorize() {
+	si := zv.Choose("structure", zv.Param("structs", len(c02Structs)))
+	su := zv.Cached("c02-"+string(rune('a'+si)), func() interface{} { return c02Build(si, false, false) }).(*c02Setup)
+	vRec = &vRecorder{}
+	c02S = &c02Script{outcome: map[string]int{}, scopesSeen: map[string][]string{}}
+	for _, n := range []string{"a", "b", "c"} {
+		c02S.outcome[n] = zv.Choose("outcome-"+n, 4)
+	}
+	r := &http.Request{Method: "GET", Header: http.Header{}, URL: &url.URL{Path: "/secure"}}
+	route, r2, ok := su.ctx.RouteInfo(r)
+	zv.Assert("route-found", ok && route != nil)
+	if !ok {
+		return
+	}
+	pr, r3, err := su.ctx.Authorize(r2, route)
+	admitted, anonymous, _, princ, scopes := c02Oracle(si)
+	if admitted {
 		zv.Reach("admitted")
-		zv.Assert("handler-runs-when-an-alternative-is-satisfied", c02S.handlerRan == 1)
-		zv.Assert("no-error-response-when-admitted", vRec.errCount == 0)
-		if withAuthz {
-			zv.Assert("authorizer-consulted-once", c02S.authzCalls == 1)
-			if !anonymous {
-				zv.Assert("authorizer-sees-the-alternatives-principal", c02S.authzPrinc == princ)
+		zv.Assert("authorize-succeeds", err == nil && r3 != nil)
+		if err != nil || r3 == nil {
+			return
+		}
+		if anonymous {
+			zv.Assert("anonymous-has-no-principal", pr == nil && SecurityPrincipalFrom(r3) == nil)
+			return
+		}
+		zv.Assert("principal-returned", pr == princ)
+		zv.Assert("principal-readable-by-handler", SecurityPrincipalFrom(r3) == princ)
+		got := SecurityScopesFrom(r3)
+		zv.Assert("scopes-count", len(got) == len(scopes))
+		for k := range scopes {
+			if k < len(got) {
+				zv.Assert("scopes-of-the-satisfied-alternative", got[k] == scopes[k])
+			}
+		}
+		// required scopes handed to each consulted authenticator are its own
+		for _, alt := range c02Structs[si] {
+			for _, rq := range alt {
+				if seen, ok := c02S.scopesSeen[rq.name]; ok {
+					zv.Assert("scheme-sees-its-required-scopes", len(seen) == len(rq.scopes))
+				}
 			}
 		}
 	} else {
 		zv.Reach("refused")
-		zv.Assert("handler-does-not-run-when-refused", c02S.handlerRan == 0)
-		zv.Assert("error-responder-called-once", vRec.errCount == 1)
-		e, isAPIErr := vRec.servedErr.(errors.Error)
-		zv.Assert("error-has-a-status", isAPIErr)
-		if isAPIErr {
-			switch {
-			case authzDenied && c02S.authz == 1:
-				zv.Reach("authz-own-status")
-				zv.Assert("authorizer-error-kept", e.Code() == 418)
-			case authzDenied:
-				zv.Reach("authz-403")
-				zv.Assert("authorizer-plain-error-is-403", e.Code() == http.StatusForbidden)
-			case anyReject:
-				zv.Reach("rejected")
-				zv.Assert("rejecting-scheme-error", e == errC02["a"] || e == errC02["b"] || e == errC02["c"])
-			default:
-				zv.Reach("401")
-				zv.Assert("401-when-no-alternative-applied", e.Code() == http.StatusUnauthorized)
-			}
-		}
+		zv.Assert("authorize-fails", err != nil)
+		zv.Assert("no-principal-on-refusal", pr == nil)
 	}
-	_ = admitScopes
 }
